@@ -17,5 +17,15 @@ TaskWordsM == {601, 602}
 ExpWordsM == {701}
 VerWordsM == {801, 812}
 StructWordsM == {901, 902}
+\* three values for the entities that vary most in real data sets (thorough tier)
+BidsValsL == [sub |-> {21, 22, 3}, ses |-> {23, 24, 46}, task |-> {25, 5}, run |-> {27, 28, 47},
+              space |-> {29, 30, 48}, desc |-> {31, 2, 42}, suffix |-> {33, 34}, ext |-> {<<39>>, <<39, 40>>},
+              derivative |-> {35, 36, 1}, modality |-> {37, 38}]
+MneCodesM == {11, 12}
+MneCodesL == {11, 12, 7}
+\* words the fmriprep helpers hard-code, and the values of the data-set model
+DsM == [bold |-> 33, mask |-> 34, nii |-> 39, gz |-> 40, preproc |-> 31, brain |-> 42, confounds |-> 41,
+        timeseries |-> 43, aparcaseg |-> 45, dseg |-> 44, p1 |-> 35, p2 |-> 36, sp1 |-> 29, sp2 |-> 30,
+        sub1 |-> 21, sub2 |-> 22, ses1 |-> 23, ses2 |-> 24, t1 |-> 25, t2 |-> 5, r1 |-> 27, r2 |-> 28, func |-> 37]
 AllSections == {"bids", "meadows", "mne", "dm", "spm"}
 =============================================================================
